@@ -62,3 +62,31 @@ Print Assumptions C11_flip_nd.
 Theorem C11_flip_is_an_involution_on_indices : forall flags sh idx, Tensor.in_bounds sh idx -> length flags = length sh ->
   flip_idx flags sh (flip_idx flags sh idx) = idx /\ Tensor.in_bounds sh (flip_idx flags sh idx).
 Proof. exact flip_idx_involutive. Qed.
+
+(* roll, n-D (axis given): for every element type, every well-formed tensor of every rank, every list of
+   (shift, axis) pairs — shifts of any sign and magnitude, negative and repeated axes — on axes of positive extent,
+   the Gather sequence followed by the Reshape to the original shape returns a tensor of the same shape whose
+   element at idx is the input's element at roll_src idx: per pair, coordinate i of the axis comes from
+   (i - shift) mod n (NumPy's roll); pairs on the same axis add up, pairs on different axes commute. *)
+From ND Require Import Ndx.RollProof.
+Theorem C11_roll_nd : forall (A : Type) (t : tensor A) shifts axs (d : A), wf t -> length shifts = length axs ->
+  Forall (step_ok (shape t)) (combine shifts axs) ->
+  ndx_roll t shifts (Some axs) d = GetItem.Done (tab (shape t) (fun idx => get t (roll_src (shape t) (combine shifts axs) idx) d)).
+Proof. exact @ndx_roll_nd. Qed.
+Print Assumptions C11_roll_nd.
+Theorem C11_roll_same_axis_adds : forall sh s1 s2 ax idx, (ax < length idx)%nat -> (0 < nth ax sh 0)%nat ->
+  rstep sh s1 ax (rstep sh s2 ax idx) = rstep sh (s1 + s2) ax idx.
+Proof. exact rstep_same_axis_adds. Qed.
+Theorem C11_roll_axes_commute : forall sh s1 s2 a1 a2 idx, a1 <> a2 ->
+  rstep sh s1 a1 (rstep sh s2 a2 idx) = rstep sh s2 a2 (rstep sh s1 a1 idx).
+Proof. exact rstep_other_axis_commutes. Qed.
+Theorem C11_roll_forward : forall sh s ax idx, (ax < length idx)%nat -> (0 < nth ax sh 0)%nat -> (nth ax idx 0 < nth ax sh 0)%nat ->
+  rstep sh s ax (replace_nth ax (Z.to_nat ((Z.of_nat (nth ax idx 0%nat) + s) mod Z.of_nat (nth ax sh 0%nat))) idx) = idx.
+Proof. exact roll_forward. Qed.
+Theorem C11_roll_stays_in_bounds : forall sh steps idx, Forall (step_ok sh) steps -> Tensor.in_bounds sh idx -> Tensor.in_bounds sh (roll_src sh steps idx).
+Proof. exact roll_src_inb. Qed.
+Theorem C11_reshape_to_own_shape_is_identity : forall (A : Type) (t : tensor A), ndx_reshape t (map Z.of_nat (shape t)) = GetItem.Done t.
+Proof. exact @reshape_same. Qed.
+Example C11_ex_roll_nd : ndx_roll {| shape := [2; 3]%nat; data := [1; 2; 3; 4; 5; 6]%Z |} [1; -1]%Z (Some [(-1); 0]%Z) 0%Z
+  = GetItem.Done {| shape := [2; 3]%nat; data := [6; 4; 5; 3; 1; 2]%Z |}.
+Proof. reflexivity. Qed.
